@@ -256,7 +256,8 @@ fn sampled_full_grid(ctx: &mut Ctx, text: &[u8], pi: Pi) {
     let mut ks: Vec<u32> = vec![1, 2, 3, 7, n as u32, 2 * n as u32];
     ks.sort();
     ks.dedup();
-    for s in 1..=n + 1 {
+    // ..., and the two largest rates (size computations from the rate must not overflow)
+    for s in (1..=n + 1).chain([usize::MAX - 1, usize::MAX]) {
         for &k in &ks {
             ctx.case(|| sampled_desc(text, pi, s, k), |cc| check_sampled(text, &p, s, k, cc));
         }
@@ -705,7 +706,7 @@ impl Prop for C03Prop {
             "ternary {$,a,b}": {"sa_lcp_sus_body_len": format!("0..={}", b.sa3), "sampled_body_len": format!("0..={}", b.samp3)},
             "quaternary {$,a,b,c}": {"sa_lcp_sus_body_len": format!("0..={}", b.sa4), "sampled_body_len": format!("0..={}", b.samp4)},
             "byte-extreme {00,01,ff,80}": {"sa_lcp_sus_body_len": format!("0..={}", b.sa_x), "sampled_body_len": format!("0..={}", b.samp_x)},
-            "sampled_grid_small": "s in 1..=n+1, k in {1,2,3,7,n,2n}; oracle array under sentinel order desc for every body length, asc for multi-sentinel bodies (quaternary sweeps: only bodies one symbol shorter than the bound)",
+            "sampled_grid_small": "s in 1..=n+1 and usize::MAX-1, usize::MAX; k in {1,2,3,7,n,2n}; oracle array under sentinel order desc for every body length, asc for multi-sentinel bodies (quaternary sweeps: only bodies one symbol shorter than the bound)",
             "families": {"texts": ti::family_bodies(tier, b.sa3).len(), "max_len": ti::family_bodies(tier, b.sa3).iter().map(|b| b.len() + 1).max(),
                          "sampled": tier.pick("n<=140: s in {1,2,3,5,8,32,33,n,n+1} x k in {1,3,64,65,2n}, sentinel order desc", "n<=100: s in {1,2,3,4,5,7,8,16,31,32,33,64,n/2,n-1,n,n+1} x k in {1,2,3,7,64,65,128,n,2n}; 100<n<=300: s in {1,2,3,5,8,32,33,n,n+1} x k in {1,3,64,65,2n}; both sentinel orders")},
             "large_texts": "fixed pseudo-random texts (LCG) of 150k-400k (thorough: up to 1M) symbols over 16/64/255-symbol alphabets: more than 2^16 distinct LMS substrings; plus 'read collection' texts in which about every second symbol is the sentinel (more than 2^16 sentinel occurrences, i.e. rank alphabet beyond u16); suffix array checked for permutation and order only", "wide_alphabet": {"texts": ti::wide_alphabet_texts(tier).len(), "alphabet_plus_sentinels": "253..=258 and 256+{1,2,3,5}", "sampled": "s in {1,2,3,16,n} x k in {1,3,65,n}"},
